@@ -79,6 +79,22 @@ rule('D4', 'input', r'return self\.utf8\.push_byte\(byte\)\.map\(Input::Char\)',
      'return match self.utf8.push_byte(byte) { Some(__c) => Some(Input::Char(__c)), None => None }', 1,
      'Option::map with a constructor path == match (definition of Option::map)')
 
+# ---- token ------------------------------------------------------------------------------------------
+rule('D11', 'token', r'#\[derive\(Clone, Debug, Eq, PartialEq\)\]\npub struct Tokens<\'a> \{\n    empty: bool,\n    tokens: &\'a str,\n\}\n',
+     "#[derive(Debug, Eq, PartialEq)]\npub struct Tokens<'a> {\n    empty: bool,\n    tokens: &'a str,\n}\n\n"
+     "impl<'a> Clone for Tokens<'a> {\n    fn clone(&self) -> Self {\n        Tokens { empty: self.empty, tokens: self.tokens }\n    }\n}\n", 1,
+     'derived Clone gets no Verus spec: replaced by the field-wise impl #[derive(Clone)] expands to')
+rule('D11', 'token', r'#\[derive\(Clone, Debug\)\]\npub struct TokensIter<\'a> \{\n    tokens: &\'a str,\n    empty: bool,\n\}\n',
+     "#[derive(Debug)]\npub struct TokensIter<'a> {\n    tokens: &'a str,\n    empty: bool,\n}\n\n"
+     "impl<'a> Clone for TokensIter<'a> {\n    fn clone(&self) -> Self {\n        TokensIter { tokens: self.tokens, empty: self.empty }\n    }\n}\n", 1,
+     'derived Clone gets no Verus spec: replaced by the field-wise impl #[derive(Clone)] expands to')
+rule('D7', 'token', r"impl<'a> Iterator for TokensIter<'a> \{\n    type Item = &'a str;\n\n    fn next\(&mut self\) -> Option<Self::Item> \{",
+     "impl<'a> TokensIter<'a> {\n    pub fn next(&mut self) -> Option<&'a str> {", 1,
+     'impl Iterator drags in vstd\'s prophetic iterator laws: `next` is verified as an inherent method with the same body')
+rule('D3', 'token', r'self\.tokens\.as_bytes\(\)\.iter\(\)\.position\(\|&b\| b == 0\)',
+     'crate::verif_specs::position_eq(self.tokens.as_bytes(), 0)', 1,
+     'Iterator::position with an equality predicate == first index holding the value (shim contract)')
+
 
 def apply(module, src, log):
     for r in RULES:
